@@ -118,6 +118,9 @@ pub enum ROp {
     /// read the open file to its end with buffers of n bytes
     ReadAll { n: usize },
     Hash { name: String },
+    /// read until `total` more bytes of the open file were returned (or its end), with buffers of at most n bytes:
+    /// how a caller stops exactly at a chosen position
+    ReadExact { total: usize, n: usize },
 }
 
 #[derive(Clone, Debug, PartialEq)]
